@@ -682,10 +682,26 @@ fn enum_c14(ctx: &mut Ctx, seed: u64) -> Result<(), String> {
 fn realfile_passwords(ctx: &mut Ctx, base: &Case, env: &Env) -> Result<(), String> {
     let dir = tmp_dir();
     let path = dir.join(format!("encpw_{}.bin", std::process::id()));
-    let password = format!("Pass-{}-word", base.key);
+    // short and long passwords (long ones cross SHA-256's 64-byte block size once and twice)
+    let password = match base.key % 3 {
+        0 => format!("Pass-{}-word", base.key),
+        1 => format!("Pass-{}-{}-tail{}", base.key, "x".repeat(58), base.key),
+        _ => format!("Pass-{}-{}-tail{}", base.key, "correct horse battery staple ".repeat(4), base.key),
+    };
     set_hooks(base);
     env.subj.save_encrypted_file(&env.value, &path, true, &password).map_err(|e| format!("{:?}", e))?;
+    let flip_last = |s: &str, back: usize| -> String {
+        let mut b: Vec<char> = s.chars().collect();
+        let i = b.len().saturating_sub(1 + back);
+        b[i] = if b[i] == 'q' { 'r' } else { 'q' };
+        b.into_iter().collect()
+    };
     let wrong: Vec<String> = vec![
+        flip_last(&password, 0),
+        flip_last(&password, 1),
+        flip_last(&password, 5),
+        flip_last(&password, password.len() / 2),
+        flip_last(&password, password.len() - 1),
         password.to_lowercase(),
         password.to_uppercase(),
         format!("{} ", password),
@@ -750,6 +766,23 @@ fn enum_c06(ctx: &mut Ctx, seed: u64) -> Result<(), String> {
         }
     }
     let _ = len;
+    // every replacement value at the two low bytes of everything that looks like a 64-bit length / count field
+    // (lengths, tags and discriminants are what C06's quantifier singles out)
+    let lens = gen::length_like_positions(&env);
+    ctx.count("enum.c06.length_like_fields", lens.len() as u64);
+    for &p in lens.iter().take(if ctx.tier_thorough { 48 } else { 6 }) {
+        for off in 0..2u64 {
+            let orig = env.ref_bytes[(p + off) as usize];
+            for v in 0..=255u8 {
+                if v != orig {
+                    let mut c = base.clone();
+                    c.config = "media".into();
+                    c.media = vec![MediaOp::Set(p + off, v)];
+                    ctx.eval(&c, &mut env);
+                }
+            }
+        }
+    }
     Ok(())
 }
 
